@@ -30,6 +30,8 @@ func execLine(line string) string {
 			return "case"
 		case "gen":
 			return execGen(t[1:])
+		case "build":
+			return execBuild(t[1:])
 		case "frame":
 			return execFrame(t[1:])
 		case "read":
@@ -47,6 +49,9 @@ var Shard, Shards = 0, 1
 
 var generators = map[string]func(rec *lib.Rec, r *lib.Rng, thorough bool){
 	"C13": genC13,
+	"C04": func(rec *lib.Rec, r *lib.Rng, th bool) { genBuild(rec, r, th, "C04") },
+	"C05": func(rec *lib.Rec, r *lib.Rng, th bool) { genBuild(rec, r, th, "C05") },
+	"C16": func(rec *lib.Rec, r *lib.Rng, th bool) { genBuild(rec, r, th, "C16") },
 	"C14": genC14,
 	"C01": genC01,
 	"C02": genC02,
